@@ -35,7 +35,7 @@
 //! need to call [`FromIntoIterator::from`] explicitly. The error of the resulting
 //! [`RewindableIoLender`] is `core::convert::Infallible`.
 //!
-use flate2::read::GzDecoder;
+use flate2::read::MultiGzDecoder;
 use io::{BufRead, BufReader};
 use lender::*;
 use std::{
@@ -190,20 +190,20 @@ impl<R: Read + Seek> RewindableIoLender<str> for ZstdLineLender<R> {
 /// grows as needed.
 #[derive(Debug)]
 pub struct GzipLineLender<R: Read> {
-    buf: BufReader<GzDecoder<R>>,
+    buf: BufReader<MultiGzDecoder<R>>,
     line: String,
 }
 
 impl<R: Read> GzipLineLender<R> {
     pub fn new(read: R) -> io::Result<Self> {
         Ok(GzipLineLender {
-            buf: BufReader::new(GzDecoder::new(read)),
+            buf: BufReader::new(MultiGzDecoder::new(read)),
             line: String::with_capacity(128),
         })
     }
 }
 
-impl GzipLineLender<BufReader<GzDecoder<BufReader<File>>>> {
+impl GzipLineLender<BufReader<MultiGzDecoder<BufReader<File>>>> {
     pub fn from_path(path: impl AsRef<Path>) -> io::Result<GzipLineLender<File>> {
         GzipLineLender::new(File::open(path)?)
     }
@@ -228,7 +228,7 @@ impl<R: Read + Seek> RewindableIoLender<str> for GzipLineLender<R> {
     fn rewind(mut self) -> io::Result<Self> {
         let mut read = self.buf.into_inner().into_inner();
         read.seek(io::SeekFrom::Start(0))?;
-        self.buf = BufReader::new(GzDecoder::new(read));
+        self.buf = BufReader::new(MultiGzDecoder::new(read));
         Ok(self)
     }
 }
